@@ -87,6 +87,9 @@ impl Default for RunCfg {
 pub struct Script {
     pub cfg: RunCfg,
     pub stmts: Vec<Stmt>,
+    /// C02: an allocation-scaling family instead of a statement script
+    #[serde(default)]
+    pub alloc: Option<crate::alloc::AllocCase>,
 }
 
 #[derive(Clone, Debug, PartialEq, Serialize, Deserialize)]
@@ -422,7 +425,53 @@ pub fn classify_impl(r: Result<Result<Obj, NErr>, Box<dyn std::any::Any + Send>>
     }
 }
 
+fn execute_alloc(case: &crate::alloc::AllocCase) -> RunResult {
+    let mut stats = RunStats::default();
+    let mut log = Vec::new();
+    let end = match crate::alloc::check(case) {
+        Err(m) => RunEnd::Inconclusive(format!("alloc family not measurable: {}", m)),
+        Ok(v) => {
+            for m in v.measures.iter() {
+                log.push(format!("n={} bytes={} allocs={} raised={}", m.n, m.bytes, m.allocs, m.raised));
+                stats.stmts_run += m.n;
+            }
+            log.push(format!("slope={:.3}", v.slope));
+            stats.probes.insert("alloc_slope_x1000_sum".into(), (v.slope * 1000.0) as u64);
+            stats.probes.insert("alloc_families".into(), 1);
+            if v.violation {
+                RunEnd::Violation(Violation {
+                    kind: ViolationKind::Invariant("alloc-scaling".into()),
+                    stmt_index: 0,
+                    source: format!("family {}: {}", case.family, case.mutate.join(" ; ")),
+                    expected: format!(
+                        "bytes allocated by n mutation statements grow like n (log-log slope <= {})",
+                        crate::alloc::SLOPE_LIMIT
+                    ),
+                    observed: format!(
+                        "slope {:.2}: {} bytes at n={}, {} at n={}, {} at n={}",
+                        v.slope, v.measures[0].bytes, v.measures[0].n, v.measures[1].bytes, v.measures[1].n,
+                        v.measures[2].bytes, v.measures[2].n
+                    ),
+                    detail: String::new(),
+                })
+            } else {
+                RunEnd::Completed
+            }
+        }
+    };
+    stats.ticks = verif_hooks::ticks();
+    RunResult {
+        nonfatal: Vec::new(),
+        end,
+        stats,
+        log,
+    }
+}
+
 pub fn execute(script: &Script) -> RunResult {
+    if let Some(case) = &script.alloc {
+        return execute_alloc(case);
+    }
     let mut sess = Session::new(&script.cfg);
     let mut stats = RunStats::default();
     let mut log = Vec::new();
